@@ -132,7 +132,7 @@ def plain_values_for(e, attr, rng, k):
     if attr == "mapping":
         return pick(["linear", "equal_area", "logarithmic", "cdf"])
     if attr == "number_of_bins":
-        return pick([10, 50, 128])
+        return pick([10, 50, 128, 300, 1000, np.int32(300), np.int64(70000)])
     if attr == "last_focus":
         return pick(["None", "View 1"])
     if attr == "rotation":
@@ -556,6 +556,21 @@ def run_case(case, rec):
                     verdict = judge_reader(rec, path, kind, uid, label, {attr: (v, live)}, ok, coupled)
                     if verdict == "clean":
                         n_ok += 1
+                    if kind == "header" and verdict == "clean":
+                        # the same assignment on the closed workspace object: refused, or stored like any other accepted one
+                        v2 = vals[(i + 1) % len(vals)]
+                        try:
+                            setattr(ws, attr, v2)
+                            taken = True
+                        except Exception as exc:  # noqa: BLE001
+                            if not exc_origin(exc)[0]:
+                                raise
+                            taken = False
+                            rec.see("closed-workspace-assignments-refused")
+                        if taken:
+                            rec.see("closed-workspace-assignments-accepted")
+                            if judge_reader(rec, path, kind, uid, label, {attr: (v2, v2)}, "assign-while-closed") != "clean":
+                                uid = rebuild()
                     else:  # lost or unreadable: start again from a fresh file so that later attributes are judged on their own
                         uid = rebuild()
                         if verdict is False:  # and leave an attribute that breaks the file out of the sequences
@@ -619,6 +634,48 @@ def run_case(case, rec):
                 finally:
                     ws2.close()
                 rec.see("type-swaps")
+        # 4. the colour map of a stored data type edited through the ColorMap object itself (values, name)
+        if kind == "type" and cname == "DataType":
+            from geoh5py.data.color_map import ColorMap
+
+            uid = rebuild()
+            ws = Workspace(path, mode="r+")
+            subject = fetch(ws, kind, uid)
+            took = assign(rec, subject, "color_map", ColorMap(values=np.c_[np.linspace(0, 1, 4), np.zeros((4, 3)), np.ones(4) * 255], name="first.TBL"), label, "colour-map")
+            del subject
+            ws.close()
+            if took:
+                for step, (attr, v) in enumerate([("values", np.c_[np.linspace(0, 1, 5), np.arange(5) * 9, np.arange(5) * 7, np.arange(5), np.ones(5) * 255]), ("name", "other.TBL")][:: 1 if case["seed"] % 2 else -1]):
+                    ws = Workspace(path, mode="r+")
+                    cm = fetch(ws, kind, uid).color_map
+                    tag = None
+                    if cm is not None:
+                        try:
+                            setattr(cm, attr, v)
+                            tag = "colour-map-object"
+                            got = safe_get(cm, attr)
+                            shown = got
+                            if attr == "values" and isinstance(got, np.ndarray):  # the getter shows one row per field
+                                shown = np.c_[tuple(got[n] for n in got.dtype.names)] if got.dtype.names else (got.T if got.ndim == 2 and got.shape[0] == 5 else got)
+                            rec.check("C03.live", matches(v, shown), op=tag, cls="ColorMap", attr=attr, detail=f"assigned {short(canon(v), 160)}, getter returns {short(canon(shown), 160)}")
+                        except Exception as exc:  # noqa: BLE001
+                            if not exc_origin(exc)[0]:
+                                raise
+                            rec.see(f"rejected:colour-map-object.{attr}:{type(exc).__name__}")
+                    live = {a: safe_get(cm, a) for a in ("values", "name")} if cm is not None else {}
+                    del cm
+                    ws.close()
+                    if tag:
+                        ws2 = Workspace(path, mode="r")
+                        try:
+                            cm2 = fetch(ws2, kind, uid).color_map
+                            for a, lv in live.items():
+                                got = safe_get(cm2, a) if cm2 is not None else None
+                                rec.check("C03.reopen", got is not None and same(lv, got), op="colour-map-object", cls="ColorMap", attr=a,
+                                          detail=f"{attr} assigned on the stored type's ColorMap object; live {a} before close {short(canon(lv), 140)}; a fresh reader sees {short(canon(got), 140)}")
+                        finally:
+                            ws2.close()
+                        rec.see("colour-map-object-edits")
         rec.nontrivial = len(judged) >= 2
         rec.shape = [kind, cname, sorted(judged)]
         rec.sample = {"class": label, "attributes": sorted(judged)[:14]}
